@@ -14,6 +14,7 @@ func init() {
 		c18(r)
 		r.Guard("C18.R9", "every lock taken is released on every exit: the shaping locks", func() {
 			lockPairRule(r, "trafficshape")
+			guardedFieldsRule(r, "trafficshape", "urlShapes", "RWMutex", []string{"M", "LastModifiedTime"}, "a connection looks a shape up while a reconfiguration replaces the table")
 			guardedFieldsRule(r, "trafficshape", "Listener", "mu", []string{"defaults", "latency"}, "a connection being accepted reads a half-updated default while a configuration is being installed")
 		})
 	}
@@ -182,6 +183,136 @@ func c18(r *Report) {
 			r.Paths++
 			r.Decide("path", "(*M/trafficshape.Handler).ServeHTTP: nothing changes unless "+name+" succeeded", ok, fmt.Sprintf("all %d state updates are dominated by the success edge", len(muts)), "listener state can change although "+name+" failed: a rejected configuration alters the active shaping", cs[0].Pos())
 		}
+		// the defaults are refused when any one of them is negative (truth table over the
+		// three comparisons)
+		{
+			fieldOfCmp := func(b *ssa.BinOp) string {
+				for v := range w.backSlice(b.X, flowOpt{}) {
+					if fa, ok := v.(*ssa.FieldAddr); ok {
+						switch fieldObj(fa).Name() {
+						case "Up", "Down", "Latency":
+							return fieldObj(fa).Name()
+						}
+					}
+				}
+				return ""
+			}
+			var first *ssa.BinOp
+			for _, in := range instrs(sh) {
+				b, ok := in.(*ssa.BinOp)
+				if !ok || fieldOfCmp(b) == "" {
+					continue
+				}
+				if k, isK := constInt(b.Y); !isK || k != 0 || (b.Op != token.LSS && b.Op != token.LEQ && b.Op != token.GEQ && b.Op != token.GTR) {
+					continue
+				}
+				if _, isIf := b.Block().Instrs[len(b.Block().Instrs)-1].(*ssa.If); !isIf {
+					continue
+				}
+				if first == nil || b.Block().Dominates(first.Block()) {
+					first = b
+				}
+			}
+			okNeg := first != nil
+			if first != nil {
+				for mask := 0; mask < 8; mask++ {
+					val := map[string]int64{"Up": 5, "Down": 5, "Latency": 5}
+					names := []string{"Up", "Down", "Latency"}
+					for k, n := range names {
+						if mask&(1<<k) != 0 {
+							val[n] = -1
+						}
+					}
+					out, okD := decide(first.Block(), func(v ssa.Value) (bool, bool) {
+						b, isB := v.(*ssa.BinOp)
+						if !isB {
+							return false, false
+						}
+						f := fieldOfCmp(b)
+						k, isK := constInt(b.Y)
+						if f == "" || !isK {
+							return false, false
+						}
+						return cmpHolds(b.Op, val[f], k), true
+					})
+					if !okD {
+						okNeg = false
+						continue
+					}
+					rejected := false
+					for _, in := range out.Instrs {
+						if _, y := isCall(in, "net/http.Error"); y {
+							rejected = true
+						}
+					}
+					if rejected != (mask != 0) {
+						okNeg = false
+					}
+				}
+			}
+			r.Decide("path", "(*M/trafficshape.Handler).ServeHTTP: defaults are refused when any of bandwidth up, bandwidth down or latency is negative", okNeg, "truth table over the three sign tests: 400 unless all are non-negative", "a negative default passes when the others are fine (the three tests are combined with && instead of ||): the configuration is accepted and installs a negative capacity or latency", sh.Pos())
+		}
+		// an accepted configuration takes effect completely: each part of it reaches the
+		// listener (a part that is not applied leaves the previous value in force)
+		{
+			fromField := func(v ssa.Value, names ...string) bool {
+				return anyIn(w.backSlice(v, flowOpt{BinOps: true}), func(x ssa.Value) bool {
+					fa, y := x.(*ssa.FieldAddr)
+					if !y {
+						return false
+					}
+					for _, n := range names {
+						if fieldObj(fa).Name() == n {
+							return true
+						}
+					}
+					return false
+				})
+			}
+			recvField := func(c ssa.CallInstruction) string {
+				if ld, ok := c.Common().Args[0].(*ssa.UnOp); ok {
+					if fa, isFa := ld.X.(*ssa.FieldAddr); isFa {
+						return fieldObj(fa).Name()
+					}
+				}
+				return ""
+			}
+			have := map[string]bool{}
+			for _, c := range calls(sh) {
+				switch calleeName(c) {
+				case "(*M/trafficshape.Bucket).SetCapacity":
+					if recvField(c) == "ReadBucket" && fromField(c.Common().Args[1], "Down") {
+						have["read bandwidth"] = true
+					}
+					if recvField(c) == "WriteBucket" && fromField(c.Common().Args[1], "Up") {
+						have["write bandwidth"] = true
+					}
+				case "(*M/trafficshape.Listener).SetLatency":
+					if fromField(c.Common().Args[1], "Latency") {
+						have["latency"] = true
+					}
+				case "(*M/trafficshape.Listener).SetDefaults":
+					have["defaults"] = true
+				}
+			}
+			for _, in := range instrs(sh) {
+				switch x := in.(type) {
+				case *ssa.Store:
+					if fa, ok := x.Addr.(*ssa.FieldAddr); ok && fieldObj(fa).Name() == "M" {
+						if _, isMk := x.Val.(*ssa.MakeMap); isMk {
+							have["shape table emptied"] = true
+						}
+					}
+				case *ssa.MapUpdate:
+					if strings.Contains(x.Map.Type().String(), "urlShape") && fromField(x.Key, "URLRegex") {
+						have["shapes installed"] = true
+					}
+				}
+			}
+			for _, part := range []string{"read bandwidth", "write bandwidth", "latency", "defaults", "shape table emptied", "shapes installed"} {
+				r.Decide("table", "(*M/trafficshape.Handler).ServeHTTP: an accepted configuration applies its "+part, have[part], "the update is made from the received value", "an accepted configuration does not apply its "+part+": the previous value stays in force (the old shapes keep matching, the old bandwidth or latency keeps shaping) although the client was told 200", sh.Pos())
+			}
+		}
 		// a rejection (http.Error) is never followed by a state update
 		okRej := true
 		nrej := 0
@@ -227,6 +358,101 @@ func c18(r *Report) {
 	})
 
 	r.Guard("C18.R2", "every numeric field and every parsed value of a configuration is validated by a rejecting test", func() {
+		// each sign test rejects on its own: with the tested field negative and every other
+		// field fine, the chain of tests it belongs to ends in an error return (tests joined
+		// with && instead of || let one negative value through)
+		if ps := w.Fn("trafficshape", "parseShapes"); ps != nil && ps.Blocks != nil {
+			fieldOf := func(v ssa.Value) *types.Var {
+				ld, ok := unwrapConv(v).(*ssa.UnOp)
+				if !ok || ld.Op != token.MUL {
+					return nil
+				}
+				fa, ok := ld.X.(*ssa.FieldAddr)
+				if !ok {
+					return nil
+				}
+				return fieldObj(fa)
+			}
+			n := 0
+			for _, in := range instrs(ps) {
+				b, ok := in.(*ssa.BinOp)
+				if !ok || (b.Op != token.LSS && b.Op != token.LEQ) {
+					continue
+				}
+				k, isK := constInt(b.Y)
+				fo := fieldOf(b.X)
+				if !isK || k != 0 || fo == nil {
+					continue
+				}
+				if _, isIf := b.Block().Instrs[len(b.Block().Instrs)-1].(*ssa.If); !isIf {
+					continue
+				}
+				n++
+				out, okD := decide(b.Block(), func(v ssa.Value) (bool, bool) {
+					c, isB := v.(*ssa.BinOp)
+					if !isB {
+						return false, false
+					}
+					cf := fieldOf(c.X)
+					ck, isCK := constInt(c.Y)
+					if cf == nil || !isCK {
+						return false, false
+					}
+					val := int64(5)
+					if cf == fo {
+						val = -1
+					}
+					return cmpHolds(c.Op, val, ck), true
+				})
+				rejects := false
+				if okD && out != nil {
+					if ret, isRet := out.Instrs[len(out.Instrs)-1].(*ssa.Return); isRet {
+						for _, l := range resolveAll(ret.Results[len(ret.Results)-1]) {
+							if isFreshErr(l) {
+								rejects = true
+							}
+						}
+					}
+				}
+				r.Decide("path", fmt.Sprintf("M/trafficshape.parseShapes: a negative %s.%s rejects the configuration on its own (#%d)", namedOf(b.X.(*ssa.UnOp).X.(*ssa.FieldAddr).X.Type()), fo.Name(), n), rejects, "with this field at -1 and the other fields of the chain at 5 the tests end in an error return", "a negative value in this field is accepted when the fields tested with it are fine (the sign tests are joined with && instead of ||)", b.Pos())
+			}
+			// zero is a legal byte offset and a legal duration (a close action at byte 0 cuts
+			// the response right after its head); only a bandwidth must be positive
+			zeroOK := map[string]bool{"Byte": true, "Duration": true, "Bandwidth": false}
+			for _, in := range instrs(ps) {
+				b, ok := in.(*ssa.BinOp)
+				if !ok {
+					continue
+				}
+				switch b.Op {
+				case token.LSS, token.LEQ, token.GTR, token.GEQ:
+				default:
+					continue
+				}
+				k, isK := constInt(b.Y)
+				fo := fieldOf(b.X)
+				if !isK || fo == nil {
+					continue
+				}
+				want, listed := zeroOK[fo.Name()]
+				if !listed {
+					continue
+				}
+				if _, isIf := b.Block().Instrs[len(b.Block().Instrs)-1].(*ssa.If); !isIf {
+					continue
+				}
+				// the test is a rejecting one when it holds for -1
+				if !cmpHolds(b.Op, -1, k) {
+					continue
+				}
+				rejectsZero := cmpHolds(b.Op, 0, k)
+				rejectsOne := cmpHolds(b.Op, 1, k)
+				r.Decide("table", fmt.Sprintf("M/trafficshape.parseShapes: the sign test of %s.%s draws the line at zero on the right side", namedOf(b.X.(*ssa.UnOp).X.(*ssa.FieldAddr).X.Type()), fo.Name()), rejectsZero == !want && !rejectsOne, map[bool]string{true: "0 is accepted, negative values are not", false: "0 and negative values are refused, 1 is accepted"}[want], "the sign test refuses a legal value (zero where zero is allowed, or one) or lets zero through where it is not allowed: a valid configuration is answered 400, or a throttle of bandwidth 0 stalls the response for ever", b.Pos())
+			}
+			if n < 4 {
+				r.Undecided("M/trafficshape.parseShapes: sign tests", fmt.Sprintf("UNRESOLVED: %d found, want at least 4", n))
+			}
+		}
 		// the lists a shaped connection binary-searches are the lists the configuration
 		// step sorted: for every Shape field that flows into a sort.Search, parseShapes
 		// sorts that very field (not a copy of it)
@@ -850,6 +1076,140 @@ func c18(r *Report) {
 	})
 
 	r.Guard("C18.R7", "buckets created for a connection or a shape are closed when it goes away", func() {
+		// the configured latency is slept once, before a connection's first read and first
+		// write, on every path that leads to I/O
+		if ct := w.Named("trafficshape", "Conn"); ct != nil {
+			n := 0
+			for _, mn := range []string{"Read", "ReadFrom", "WriteTo", "WriteDefaultBuckets", "Write"} {
+				m := w.method(ct, mn)
+				if m == nil || m.Blocks == nil {
+					continue
+				}
+				gm := G(m)
+				isLat := func(i ssa.Instruction) bool {
+					c, y := isCall(i, "(*sync.Once).Do")
+					if !y {
+						return false
+					}
+					return anyIn(w.backSlice(c.Common().Args[1], flowOpt{}), func(v ssa.Value) bool {
+						mc, isMC := v.(*ssa.MakeClosure)
+						if !isMC {
+							return false
+						}
+						fn, _ := mc.Fn.(*ssa.Function)
+						return fn != nil && strings.Contains(fn.Name(), "sleepLatency")
+					})
+				}
+				isIO := func(i ssa.Instruction) bool {
+					c, y := i.(ssa.CallInstruction)
+					if !y {
+						return false
+					}
+					switch calleeName(c) {
+					case "(*M/trafficshape.Bucket).FillThrottle", "(*M/trafficshape.Bucket).FillThrottleLocked", "(*M/trafficshape.Conn).WriteDefaultBuckets":
+						return true
+					}
+					return c.Common().IsInvoke() && (c.Common().Method.Name() == "Write" || c.Common().Method.Name() == "Read")
+				}
+				hasIO := false
+				for _, in := range instrs(m) {
+					if isIO(in) {
+						hasIO = true
+					}
+				}
+				if !hasIO {
+					continue
+				}
+				n++
+				// Write delegates to WriteDefaultBuckets (which sleeps) on its unshaped path and sleeps itself on the shaped one
+				p := gm.PathTo([]ssa.Instruction{gm.Entry()}, true, func(i ssa.Instruction) bool {
+					if isLat(i) {
+						return true
+					}
+					_, deleg := isCall(i, "(*M/trafficshape.Conn).WriteDefaultBuckets")
+					return deleg && mn == "Write"
+				}, func(i ssa.Instruction) bool { return isIO(i) && !(mn == "Write" && func() bool { _, d := isCall(i, "(*M/trafficshape.Conn).WriteDefaultBuckets"); return d }()) })
+				r.Decide("path", "(*M/trafficshape.Conn)."+mn+": the latency is slept before the first I/O", p == nil, "Once.Do(sleepLatency) lies on every path from the entry to the first throttled read / write", "a path reaches the connection's I/O without the configured latency having been slept: the latency adds no delay on that path", m.Pos())
+			}
+			if n < 4 {
+				r.Undecided("M/trafficshape.Conn: I/O methods with latency", fmt.Sprintf("UNRESOLVED: %d found, want at least 4", n))
+			}
+			// the look-ups of the next action and the current throttle run for every non-empty
+			// list, a list of one included
+			for _, fname := range []string{"Conn.GetNextActionFromByte", "Conn.GetCurrentThrottle", "nextActionFromIndex"} {
+				lf := w.Fn("trafficshape", fname)
+				if lf == nil || lf.Blocks == nil {
+					continue
+				}
+				r.Touch(lf)
+				isLenV := func(v ssa.Value) bool {
+					c, ok := unwrapConv(v).(*ssa.Call)
+					if !ok {
+						return false
+					}
+					b, ok := c.Call.Value.(*ssa.Builtin)
+					return ok && b.Name() == "len"
+				}
+				// the block that does the work: the binary search, or the first element access
+				var work *ssa.BasicBlock
+				for _, in := range instrs(lf) {
+					if _, y := isCall(in, "sort.Search"); y && work == nil {
+						work = in.Block()
+					}
+				}
+				if work == nil {
+					for _, in := range instrs(lf) {
+						if ia, y := in.(*ssa.IndexAddr); y && work == nil && inLoop(ia.Block()) {
+							// the loop head's dominating guard
+							work = ia.Block()
+						}
+					}
+				}
+				if work == nil {
+					r.Undecided("M/trafficshape."+fname+": list look-up", "UNRESOLVED")
+					continue
+				}
+				okOne := true
+				n := 0
+				for _, ce := range ctrlEdges(work) {
+					for _, k := range []int64{1, 2} {
+						if rel, adm := constCmpAdmits(ce, isLenV, k); rel {
+							n++
+							if !adm {
+								okOne = false
+							}
+						}
+					}
+				}
+				r.Decide("path", "M/trafficshape."+fname+": the look-up runs for a list of one or two entries", okOne && n > 0, "the emptiness guard admits lengths 1 and 2", "the guard in front of the look-up excludes a list of exactly one (or two) entries: a shape with a single close action or a single throttle never acts", lf.Pos())
+			}
+			// a shape applies only to connections established after it was installed
+			if cv := w.method(ct, "CheckExistenceAndValidity"); cv != nil && cv.Blocks != nil {
+				okAnd := len(returns(cv)) > 0
+				for _, ret := range returns(cv) {
+					for _, present := range []bool{false, true} {
+						for _, valid := range []bool{false, true} {
+							ev := &miniEval{leaf: func(ssa.Value) (int64, bool) { return 0, false }, bleaf: func(v ssa.Value) (bool, bool) {
+								if ex, isEx := v.(*ssa.Extract); isEx && ex.Index == 1 {
+									if _, isLk := ex.Tuple.(*ssa.Lookup); isLk {
+										return present, true
+									}
+								}
+								if isCallValue(v, "(time.Time).Before") {
+									return valid, true
+								}
+								return false, false
+							}}
+							got, ok := ev.Bool(ret.Results[0])
+							if !ok || got != (present && valid) {
+								okAnd = false
+							}
+						}
+					}
+				}
+				r.Decide("flow", "(*M/trafficshape.Conn).CheckExistenceAndValidity: a shape applies when it exists and was installed before the connection was established", okAnd, "truth table: present && LastModifiedTime.Before(Established)", "the validity test is not the conjunction of the two: a configuration installed after a connection was accepted shapes that connection too", cv.Pos())
+			}
+		}
 		// the listener's own two buckets (each a ticker and a goroutine) go with the listener
 		if lc := r.W.Fn("trafficshape", "Listener.Close"); lc != nil && lc.Blocks != nil {
 			r.Touch(lc)
@@ -875,6 +1235,8 @@ func c18(r *Report) {
 		setterStoresRule(r, "trafficshape", "Listener", "SetLatency", "latency", "the configured latency never takes effect")
 		// a failed Accept is reported, not turned into a nil connection
 		errorsReturnedRule(r, r.W.Fn("trafficshape", "Listener.Accept"), false)
+		errorsReturnedRule(r, r.W.Fn("trafficshape", "Conn.Read"), false)
+		errorsReturnedRule(r, r.W.Fn("trafficshape", "Conn.ReadFrom"), false)
 		gts := r.Use("trafficshape", "Listener.GetTrafficShapedConn")
 		cl := r.Use("trafficshape", "Conn.Close")
 		if gts == nil || cl == nil {
